@@ -34,6 +34,9 @@ CHECKS = {
  "C08": dict(cat="exploration", technique="complete matrix enumeration through the real entrypoint: every instruction x signer identity x account state, and every instruction x account slot x substitute (incl. cooperating bank-bundle substitutions), judged by a role table and a reference consistency relation",
    text="For 55 instructions a golden call is asserted to succeed; then every cell of instruction x 12 signer identities, every cell of balance-changing instruction x {frozen, receivership, flash-loan, disabled} x signers, and every cell of instruction x account slot x substitute (foreign group's accounts, other banks' vaults/authorities/oracles, wrong-kind vaults, identical-bytes look-alikes at another address, wrong owner program, wrong discriminator, wrong program, a foreign bank together with all its vaults) is executed; cells outside the statement's role table, and substitutions that make the instruction's accounts inconsistent, must be refused (or provably ignored: bit-identical outcome).",
    ref="6 C08"),
+ "C09": dict(cat="exploration", technique="complete product enumeration of oracle data and of oracle-failure conditions through the real risk engine and the real instructions (pulse_health, borrow, withdraw, liquidate, handle_bankruptcy), judged against an exact independent reference valuation and the statement's one-sided rules",
+   text="(A) ~4500 cells: {asset side, debt side} x max-confidence {default, 2 %, 5 %, 100 %} x Pyth prices 1..9e15 x exponents -12..0 (thorough -18..1) x confidence {0, 1e-5, 1 %, either side of 5 %/2.12 and 10 %/2.12, 9 %, 100 %} x EMA {x1, x0.5, x2}, and Switchboard values 1e-9..1e6 x std-dev incl. either side of 5 %/1.96 and 10 %/1.96: the program's initial, maintenance and equity valuations and three verdicts (read from the health cache) equal the reference; collateral <= reported price, debt >= reported price, band <= 5 %. (B) {Pyth/Pyth, Switchboard/Switchboard, fixed/Pyth, Pyth/fixed, staked/Pyth} x {collateral, debt} oracle x 17 conditions (age at / one second over the limit, wrong owner, wrong discriminator, partial verification, confidence just under / over the maximum, zero / zero-with-confidence / negative price, zero EMA, identical impostor at another address, staked mint / pool impostors, zero LST supply, fixed zero) x {healthy, liquidatable, bankrupt} portfolios: pulse plus real borrow / withdraw / liquidate / bankruptcy; an acceptance requires a usable reference valuation of the kind that decision needs, and no liquidation is sized by a non-positive price.",
+   ref="6 C09"),
  "C12": dict(cat="exploration", technique="complete matrix enumeration through the real entrypoint: delegated-admin instruction x argument menu (all single-bit, all defined-subset and all-ones flag words) x bank flag presets x frozen/unfrozen, byte-level frame diff against per-role field masks; BFS over admin sequences from frozen banks; bounded-exhaustive deleverage sequences against a reference daily window",
    text="(a) Every case of interest-only / limits-only (full product) / e-mode configure and clone / setup and update emissions with 194 flag words / metadata / force-complete / group-admin configure, oracle and fixed-price calls x {bank with, without emissions} x {unfrozen, frozen} x flag presets is executed; the byte diff of every account must stay inside the signer role's field mask, and on a frozen bank weights, oracle, curve, tier, init limit and state must stay and the freeze bit must survive; (b) every admin sequence up to depth 2 (quick) / 3 (thorough) from a frozen bank keeps FREEZE_SETTINGS; (c) every sequence up to depth 3 / 4 of risk-admin deleverage transactions x 4..7 withdrawal values around whole dollars and the limit x clock advances {0, 86399, 86400, 86401} x limits {none, 1, 100}: tumbling-window whole-dollar sum <= limit, health not worse, flags cleared.",
    ref="6 C12"),
